@@ -726,9 +726,9 @@ Definition rule_html_block (st : bstate) : res (bstate * bool) :=
         | O => ret next
         | S k' =>
           if negb (Nat.ltb next (b_max st)) then ret next else
-          do ind <- line_indent st next;
-          if (ind <? 0)%Z then ret next else
           do lt <- get_line st next;
+          do ind <- line_indent st next;
+          if negb (match lt with [] => true | _ => false end) && (ind <? 0)%Z then ret next else
           if html_seq_close seq_i lt then ret (match lt with [] => next | _ => S next end)
           else roll k' (S next)
         end in
